@@ -49,14 +49,23 @@ def run_closure(prog, cls, flag):
     raise Unsupported('calculate has %d data-dependent normally returning paths' % len(normal))
 
 
-def _run_closure(prog, cls, flag, preset=()):
+UINF = N.sym('uinf')
+
+
+def _run_closure(prog, cls, flag, preset=(), inf_core=False):
     ip = Interp(prog)
     ip.preset = list(preset)
     for s, k in (('u', 'curve'), ('g', 'curve'), ('r', 'curve'), ('sigma', 'scalar')):
         ip.declare(s, k)
     o = ip.construct(cls, [], {'apply_hard_core': Const(flag)})
     o.origin = 'self'
-    pot = Arr(U, 'self.potential', ip)
+    if inf_core:
+        # a genuinely divergent core: the potential is +infinity at every grid point with r <= sigma
+        ip.declare('uinf', 'curve')
+        ip.inf_syms = frozenset(['uinf'])
+        pot = Arr(P.ite(P.Cond.cmp('>', R, S), U, UINF), 'self.potential', ip)
+    else:
+        pot = Arr(U, 'self.potential', ip)
     o.attrs['potential'] = pot
     o.attrs['sigma'] = Num(S)
     r = Arr(R, 'r', ip)
@@ -99,11 +108,18 @@ def _extras(*terms):
         syms = d.symbols()
         if 'sigma' in syms:
             raise Unsupported('closure mask compares something other than r and sigma: %s vs %s' % (N.show(a), N.show(b)))
-        lin = len(syms) == 1 and d.is_poly() and all(a_[0] == 'sym' for a_ in d.all_atoms())
+        lin = len(syms) >= 1 and d.is_poly() and all(a_[0] == 'sym' for a_ in d.all_atoms())
         sname = next(iter(syms)) if len(syms) == 1 else None
         if lin:
-            dd = N.diff(d, sname)
-            lin = dd.is_const() and not dd.is_zero()
+            for sn in sorted(syms):
+                dd = N.diff(d, sn)
+                lin = lin and dd.is_const() and not dd.is_zero()
+        if lin and len(syms) > 1:
+            # a linear form in the independent real quantities gamma and u (e.g. gamma - u vs 100) takes every sign
+            if syms <= {'g', 'u'}:
+                allowed.append(('lt', 'eq', 'gt'))
+                continue
+            lin = False
         if not lin:
             raise Unsupported('data condition %s vs %s: cannot certify which orderings occur' % (N.show(a), N.show(b)))
         if sname in ('g', 'u'):
@@ -175,12 +191,11 @@ def _principal(ev):
     for p, o in ev.items():
         a, b_ = N.nf_from_key(p[0]), N.nf_from_key(p[1])
         d = a - b_
-        (sname,) = d.symbols()
-        c1 = N.diff(d, sname).const_value()
-        if sname == 'r':
+        if d.symbols() == {'r'}:
+            c1 = N.diff(d, 'r').const_value()
             want = 'gt' if c1 > 0 else 'lt'
         else:
-            c0 = N.subs(d, {sname: 0}).const_value()
+            c0 = N.subs(d, {sn: 0 for sn in d.symbols()}).const_value()
             want = 'gt' if c0 > 0 else ('lt' if c0 < 0 else 'eq')
         if o != want:
             return False
@@ -312,6 +327,81 @@ def rule_core(ctx, rule='R03.a', outside=True):
     ctx.floor(rule, n, 4, 'closures with a hard-core branch')
 
 
+def rule_core_infinite(ctx, rule='R03.i'):
+    """flag set and the potential +infinity inside the core (HardSphere(high_value=inf), a tabulated divergent core):
+    the value on not(r > sigma) is still exactly -1-gamma -- i.e. the in-core potential is discarded by *selection*, never
+    multiplied by a zero weight (0*inf is NaN) or cancelled (inf-inf is NaN).  IEEE-754 rules are applied to the
+    infinite symbol during extraction (Interp.ieee)."""
+    from ..interp import explore
+    n = 0
+    for dcls, f, users in defining_classes(ctx.prog):
+        cname = dcls.qualname
+        try:
+            worlds = explore(lambda preset: _run_closure(ctx.prog, dcls, True, preset, inf_core=True), keep_raised=True)
+            normal = [w for d, ip, w in worlds if ip is not None]
+            if len(normal) != 1:
+                raise Unsupported('calculate has %d normally returning paths with a divergent core' % len(normal))
+            term = normal[0]['res'].t
+            npw = _pointwise_fragment(term)
+            if npw:
+                raise Unsupported('extracted term contains non-pointwise operators %s (reported by R09.e)' % npw[:3])
+            at = _outside(term)
+            regions = _extras(term)
+        except (Unsupported, Raised) as e:
+            ctx.undecided(rule, cname, str(e), f.loc())
+            continue
+        n += 1
+        bad, unsure = [], []
+        for ev in regions:
+            where = (' (region {%s})' % P.show_val(ev)) if ev else ''
+            for o in ('lt', 'eq'):
+                if not _feasible(o, ev):
+                    continue
+                leaf = at(o, ev)
+                if leaf.equals(SPEC.CORE):
+                    continue
+                msg = 'with u = +inf inside the core, at r %s sigma%s the value is %s, not -1-gamma' % (
+                    {'lt': '<', 'eq': '=='}[o], where, N.show(leaf))
+                (unsure if 'MaybeNaN' in leaf.symbols() else bad).append(msg)
+        if bad:
+            ctx.violation(rule, cname, 'core-branch-infinite-potential', '; '.join(bad[:2]), f.loc())
+        elif unsure:
+            ctx.undecided(rule, cname, '; '.join(unsure[:2]), f.loc())
+        else:
+            ctx.holds(rule, cname, 'c+gamma == -1 inside the core also when the potential there is +infinity '
+                      '(selection, no 0*inf or inf-inf)', f.loc(),
+                      sample={'closure': dcls.name, 'r<sigma': N.show(at('lt', regions[0]))})
+    ctx.floor(rule, n, 4, 'closures with a hard-core branch (divergent core)')
+
+
+def rule_flag_truthiness(ctx, rule='R03.t'):
+    """the hard-core flag acts through its truth value: a closure created with a truthy flag that is not the literal True
+    (numpy.bool_ from a comparison, 1) applies the core condition exactly as with True, and a falsy one (0) behaves as
+    False"""
+    n = 0
+    for dcls, f, users in defining_classes(ctx.prog):
+        cname = dcls.qualname
+        bad = []
+        try:
+            for lit, alt in ((True, 1), (False, 0)):
+                t0 = run_closure(ctx.prog, dcls, lit)['res'].t
+                t1 = run_closure(ctx.prog, dcls, alt)['res'].t
+                d, _ = P.compare(t0, t1)
+                if d:
+                    ev, a_, b_ = d[0]
+                    bad.append('apply_hard_core=%r gives %s where apply_hard_core=%r gives %s%s' % (
+                        alt, N.show(b_), lit, N.show(a_), (' (where %s)' % P.show_val(ev)) if ev else ''))
+        except (Unsupported, Raised) as e:
+            ctx.undecided(rule, cname, str(e), f.loc())
+            continue
+        n += 1
+        if bad:
+            ctx.violation(rule, cname, 'flag-truthiness', '; '.join(bad), f.loc())
+        else:
+            ctx.holds(rule, cname, 'flag values 1 / 0 behave as True / False', f.loc())
+    ctx.floor(rule, n, 4, 'closures with a hard-core flag')
+
+
 def rule_core_only(ctx, rule='R03.a'):
     """C03's clause: inside the core of a flagged closure c + gamma == -1 exactly (what the closure does outside the core
     is C09's business)"""
@@ -332,8 +422,18 @@ def rule_noflag_limit(ctx, rule='R03.c'):
             if npw:
                 raise Unsupported('extracted term contains non-pointwise operators %s (reported by R09.e)' % npw[:3])
             regions = _extras(pterm)
-            if any('u' in N.nf_from_key(k).symbols() for ev in regions[:1] for p in ev for k in p):
-                raise Unsupported('flag-free term branches on u: the limit u -> infinity selects a region that is not modelled')
+            # conditions that involve u: in the limit u -> +infinity only the regions on the far side are visited
+            def in_limit(ev):
+                for p_, o in ev.items():
+                    d = N.nf_from_key(p_[0]) - N.nf_from_key(p_[1])
+                    if 'u' in d.symbols():
+                        cu = N.diff(d, 'u')
+                        if not cu.is_const() or cu.is_zero():
+                            raise Unsupported('flag-free term branches on a non-linear condition on u')
+                        if o != ('gt' if cu.const_value() > 0 else 'lt'):
+                            return False
+                return True
+            regions = [ev for ev in regions if in_limit(ev)]
             key_rs, _ = _rs_key()
             if key_rs in P.conds(pterm)[0]:
                 raise Unsupported('piecewise (r vs sigma) flag-free term')
